@@ -483,6 +483,15 @@ class InvokeDefinition:
             source.id,
             config,
         )
+        # 🛡️ The id names the completion events (`done.invoke.<id>`), keys
+        #    the actor map and the invocation bookkeeping: anything but a
+        #    string silently produced names like `done.invoke.[]` or failed
+        #    with a raw TypeError ("unhashable type") on entry.
+        if not isinstance(invoke_id, str):
+            raise InvalidConfigError(
+                f"Invoke on state '{source.id}' has an invalid 'id' of type "
+                f"'{type(invoke_id).__name__}'. Expected a string."
+            )
         self.id: str = invoke_id
         src = config.get("src")
         # 🛡️ `src` is the key into `MachineLogic.services`; an unhashable or
